@@ -141,7 +141,7 @@ package proto
 //@ func Writer.SendOpenFileResult results(err)
 //@   tags C03,C02,C04
 //@   requires w != nil && w.Writer != nil && info != nil
-//@   wrapok uint64(info.ModTime().UTC().Unix())
+//@   wrapok conv:int64->uint64
 //@   modifies wn[wsink(w.Writer)], wdata[wsink(w.Writer)], iofaults
 //@   ensures outKept(wsink(w.Writer)) && iofaults >= old(iofaults) && (iofaults == old(iofaults) ==> err == nil)
 //@   ensures[C03,C02] err == nil ==> wn[wsink(w.Writer)] == old(wn[wsink(w.Writer)]) + 16 && sbe64(wdata[wsink(w.Writer)], old(wn[wsink(w.Writer)])) == fisize[info] && be64(wdata[wsink(w.Writer)], old(wn[wsink(w.Writer)]) + 8) == u64(fimtime[info]) @layout
@@ -174,9 +174,7 @@ package proto
 //@ func fileInfoTimes
 //@   tags C06,C04
 //@   requires info != nil
-//@   wrapok uint64(info.ModTime().UTC().Unix())
-//@   wrapok uint64(accessTime.AccessTime().UTC().Unix())
-//@   wrapok uint64(changeTime.ChangeTime().UTC().Unix())
+//@   wrapok conv:int64->uint64
 //@   ensures[C06] mtime == u64(fimtime[info]) @mtime
 //@   ensures[C06] atime == (implements(info, "proto.AccessTimeFileInfo") ? u64(fiatime[info]) : mtime) @atime
 //@   ensures[C06] ctime == (implements(info, "proto.AccessChangeTimeFileInfo") ? u64(fictime[info]) : mtime) @ctime
@@ -236,7 +234,7 @@ package proto
 //@   any q int
 //@   requires w != nil && w.Writer != nil
 //@   requires forall y {at(entries, y)} :: base(entries) <= y && y < end(entries) ==> at(entries, y) != nil
-//@   wrapok uint64(entry.ModTime().UTC().Unix())
+//@   wrapok conv:int64->uint64
 //@   modifies wn[wsink(w.Writer)], wdata[wsink(w.Writer)], iofaults
 //@   let u = wsink(w.Writer)
 //@   let o = wn[wsink(w.Writer)]
